@@ -173,6 +173,7 @@ def run_check(prop, harness_name, tier, seed, replay_path=None, selftest=False, 
     samples, mismatches, violations, known_hits, harness_errors = [], [], [], {}, []
     families = {}
     describe = {}
+    unrepro = {}
 
     def replay_candidate(job, params, what):
         """Replay on the real code in both modes, with ulp-neighbours; returns
@@ -218,7 +219,7 @@ def run_check(prop, harness_name, tier, seed, replay_path=None, selftest=False, 
                 if p["status"] == "bound-exceeded" and hasattr(H, "on_bound_exceeded"):
                     pass
             # witness validation on the compiled code
-            if p["status"] == "ok" and p.get("witness") and p.get("outputs") is not None:
+            if p["status"] == "ok" and p.get("witness") is not None and p.get("outputs") is not None:
                 req = {"harness": harness_name, "family": job["family"], "args": job["args"],
                        "params": _hexparams(p["witness"])}
                 r = rep_jit.call(req)
@@ -271,10 +272,12 @@ def run_check(prop, harness_name, tier, seed, replay_path=None, selftest=False, 
                                        "params": f["params"], "replay": rec})
                 else:
                     agg["findings_model_only"] += 1
+                    key = what[:160]
+                    unrepro[key] = unrepro.get(key, 0) + 1
             if p["status"] == "bound-exceeded":
                 agg.setdefault("bound_exceeded", 0)
                 agg["bound_exceeded"] += 1
-            if len(samples) < 6 and p["status"] == "ok" and p.get("witness"):
+            if len(samples) < 6 and p["status"] == "ok" and p.get("witness") is not None:
                 samples.append({"family": job["family"], "args": job["args"], "path": p["trace"][:60],
                                 "decisions": p["decisions"], "witness": p["witness"],
                                 "obligations": [(o["name"], o["status"], o["how"]) for o in p["obligs"]][:12]})
@@ -382,6 +385,7 @@ def run_check(prop, harness_name, tier, seed, replay_path=None, selftest=False, 
             "replayer_requests": {"jit": rep_jit.requests, "nojit": rep_py.requests},
             "harness_errors": harness_errors[:5],
             "describe": describe,
+            "findings_not_reproduced_on_real_code": dict(sorted(unrepro.items(), key=lambda kv: -kv[1])[:8]),
         },
         "assumptions": getattr(H, "ASSUMPTIONS", []) + [
             "float64 modelled as exact reals: rounding-only defects are outside the claim",
@@ -393,6 +397,8 @@ def run_check(prop, harness_name, tier, seed, replay_path=None, selftest=False, 
     json.dump(ev, open(os.path.join(VERIF, "evidence", prop + ".json"), "w"), indent=1, default=str)
     for ln in lines:
         print(ln)
+    for k_, n_ in sorted(unrepro.items(), key=lambda kv: -kv[1])[:5]:
+        print("note: not reproduced on the real code (model-only, %d x): %s" % (n_, k_))
     print("%s %s: jobs=%d paths=%d decisions=%d obligations=%d discharged=%d undecided=%d model_only=%d validated=%d mismatch=%d "
           "unexplored=%d queries=%d solver_s=%.1f wall=%.1fs rc=%d" % (
               prop, tier, agg["jobs"], agg["paths"], agg["decisions"], agg["obligations"], agg["discharged"],
